@@ -8,6 +8,7 @@ CONSTANTS
   MaxSurplus = 1
   MaxKw = 1
   MaxBad = 2
+  Specials = {"n", "z", "o"}
   Extras = {"x1"}
   VarNames = FALSE
   Mode = "check"
